@@ -359,4 +359,5 @@ def check(ctx, R):
     R.run("C06.k", lambda R, c: c02.rule_h(R, c, "C06.k"), ctx)
     from . import shared as _sh
     R.run("C06.i", lambda R, c: _sh.unapplied_within_range(R, c, "C06.i"), ctx)
+    R.run("C06.o", lambda R, c: _sh.export_extent(R, c, "C06.o"), ctx)
     return {}
